@@ -354,6 +354,7 @@ def judgePair (lhs rhs : Tok) : String :=
             | none, none =>
               if modelEq mp mw != some epw then s!"DIFF {cls} Equal(P,W):model={modelEq mp mw},impl={epw}"
               -- the exact-arithmetic instance of the model (what the theorems talk about) on the same case
+              else if !numeralsRead c then s!"DIFF {cls} numeral-contract-fails(hypothesis-of-C20_parse_agree)"
               else if wellFormed c && !agree c st then s!"DIFF {cls} exact-model-parses-do-not-equal-expected"
               else s!"OK {cls}"
         | _ => s!"DIFF {cls} malformed-impl-line"
